@@ -7,7 +7,7 @@
 //! * `pl_json_rt` / `rq_json_rt` – JSON -> value -> JSON for a caller-supplied document
 use std::str::FromStr;
 
-use prqlc::{ErrorMessages, Options, Target};
+use prqlc::{ErrorMessage, ErrorMessages, Options, SourceTree, Target};
 use serde_json::{json, Value};
 
 use crate::ops::{errs, s};
@@ -35,6 +35,61 @@ fn err_core(e: &ErrorMessages) -> Value {
         })
         .collect();
     Value::Array(v)
+}
+
+/// the parts of an error that need the source text.  The staged API has no source; a binding that holds the text composes
+/// the staged error against it (`ErrorMessages::composed`) - the result must be what one-shot `compile` shows.
+fn err_disp(e: &ErrorMessages) -> Value {
+    let v: Vec<Value> = e
+        .inner
+        .iter()
+        .map(|m| {
+            json!({
+                "display": m.display,
+                "location": m.location.as_ref().map(|l| json!({"start": [l.start.0, l.start.1], "end": [l.end.0, l.end.1]})),
+            })
+        })
+        .collect();
+    Value::Array(v)
+}
+
+/// what `compile` does to the display for DisplayOptions::Plain
+fn strip_ansi(s: &str) -> String {
+    let mut out = String::with_capacity(s.len());
+    let mut it = s.chars().peekable();
+    while let Some(c) = it.next() {
+        if c == '\u{1b}' {
+            if it.peek() == Some(&'[') {
+                it.next();
+                for d in it.by_ref() {
+                    if ('@'..='~').contains(&d) {
+                        break;
+                    }
+                }
+            }
+        } else {
+            out.push(c);
+        }
+    }
+    out
+}
+
+/// a staged error composed against the ORIGINAL source text: {"core": .., "disp": ..} or {"panic": ..}
+fn composed_against(prql: &str, e: ErrorMessages) -> Value {
+    let r = std::panic::catch_unwind(std::panic::AssertUnwindSafe(|| {
+        let e = e.composed(&SourceTree::from(prql));
+        ErrorMessages {
+            inner: e
+                .inner
+                .into_iter()
+                .map(|m| ErrorMessage { display: m.display.map(|s| strip_ansi(&s)), ..m })
+                .collect(),
+        }
+    }));
+    match r {
+        Ok(e) => json!({"core": err_core(&e), "disp": err_disp(&e)}),
+        Err(_) => json!({ "panic": true }),
+    }
 }
 
 fn opts(o: &Value) -> Result<Options, String> {
@@ -84,25 +139,43 @@ fn staged_full(req: &Value) -> Value {
         .cloned()
         .unwrap_or_else(|| vec![json!({})]);
 
+    let want_display = req.get("want_display").and_then(|v| v.as_bool()).unwrap_or(false);
     // stage 1: source -> PL
     let pl = match guarded(|| prqlc::prql_to_pl(prql)) {
         Ok(Ok(pl)) => pl,
         r => {
             out.insert("stage".into(), json!("prql_to_pl"));
             match r {
-                Ok(Err(e)) => out.insert("errors".into(), err_core(&e)),
+                Ok(Err(e)) => {
+                    if want_display {
+                        out.insert("composed".into(), composed_against(prql, e.clone()));
+                    }
+                    out.insert("errors".into(), err_core(&e))
+                }
                 Err(p) => out.insert("panic_in_prql_to_pl".into(), json!(p)),
                 _ => None,
             };
             // one-shot must fail the same way under every option set
+            let mut one_disp: Vec<Value> = vec![];
             let one: Vec<Value> = option_sets
                 .iter()
                 .map(|o| match opts(o) {
-                    Ok(o) => res_g(guarded(|| prqlc::compile(prql, &o))),
+                    Ok(o) => {
+                        let r = guarded(|| prqlc::compile(prql, &o));
+                        if let (true, Ok(Err(e))) = (want_display, &r) {
+                            one_disp.push(err_disp(e));
+                        } else {
+                            one_disp.push(Value::Null);
+                        }
+                        res_g(r)
+                    }
                     Err(e) => json!({ "option_error": e }),
                 })
                 .collect();
             out.insert("oneshot".into(), Value::Array(one));
+            if want_display {
+                out.insert("oneshot_disp".into(), Value::Array(one_disp));
+            }
             return Value::Object(out);
         }
     };
@@ -207,7 +280,27 @@ fn staged_full(req: &Value) -> Value {
                 continue;
             }
         };
-        let one = res_g(guarded(|| prqlc::compile(prql, &o)));
+        let one_r = guarded(|| prqlc::compile(prql, &o));
+        // a rejected program: the staged error, composed against the same text, must show what one-shot shows
+        let disp = match (want_display, &one_r) {
+            (true, Ok(Err(e))) => {
+                let st = guarded(|| {
+                    let pl = prqlc::prql_to_pl(prql)?;
+                    let pl = prqlc::json::to_pl(&prqlc::json::from_pl(&pl)?)?;
+                    let rq = prqlc::pl_to_rq(pl)?;
+                    let rq = prqlc::json::to_rq(&prqlc::json::from_rq(&rq)?)?;
+                    prqlc::rq_to_sql(rq, &o)
+                });
+                let st = match st {
+                    Ok(Ok(_)) => json!({ "sql": true }),
+                    Ok(Err(e)) => composed_against(prql, e),
+                    Err(p) => json!({ "panic": p }),
+                };
+                Some(json!({"oneshot": {"core": err_core(e), "disp": err_disp(e)}, "staged": st}))
+            }
+            _ => None,
+        };
+        let one = res_g(one_r);
         let direct = match &rq_direct {
             Ok(rq) => res_g(guarded(|| prqlc::rq_to_sql(rq.clone(), &o))),
             Err(e) => e.clone(),
@@ -224,11 +317,15 @@ fn staged_full(req: &Value) -> Value {
             json!({ "errors": out.get("to_rq_error").cloned().unwrap_or(Value::Null), "stage": "to_rq" })
         };
         let mut entry = json!({"oneshot": one, "direct": direct, "staged": staged});
+        if let Some(d) = disp {
+            entry["display"] = d;
+        }
         let mut st_cmp = entry["staged"].clone();
         if let Some(m) = st_cmp.as_object_mut() {
             m.remove("stage");
         }
-        if entry["oneshot"] != entry["direct"] || entry["oneshot"] != st_cmp {
+        // (a one-shot panic is never equal to a staged answer: nothing to learn from repeating it)
+        if entry["oneshot"].get("panic").is_none() && (entry["oneshot"] != entry["direct"] || entry["oneshot"] != st_cmp) {
             // is one-shot compile itself unstable on this input?  repeat both routes and compare the SETS of answers
             let mut os: Vec<Value> = vec![entry["oneshot"].clone()];
             let mut ss: Vec<Value> = vec![st_cmp.clone(), entry["direct"].clone()];
